@@ -9,7 +9,13 @@
         i<addr>:<payload> QueueIncoming | r<n> ReadFrom(buf[n]) | w<addr>:<payload> WriteTo
         o<addr> OutgoingQueue+recv | c Close
    turbotunnel qx <cap> <timeout> <ops>   QueuePacketConn model with explicit clock (model only)
-        as qc plus w<addr>:<payload>@<now>, o<addr>@<now>, h<k> held recv, e<now> sweep *)
+        as qc plus w<addr>:<payload>@<now>, o<addr>@<now>, h<k> held recv, e<now> sweep
+   turbotunnel qm <cap> <timeout> <ops>...  the same [qstep]/[qrun], outgoing side only, TIED to the Go
+        code (in-package driver harness/overlay/common/turbotunnel/zz_verif_c17_test.go: clientMapInner with
+        explicit clock + the records' channels; cap must be queueSize):
+        w<addr>:<payload>@<now> | o<addr>@<now> | h<k> | e<now>
+        each answer = <result>/<live records addr.seen.qid=contents, by address>/<closed queues, by identity>;
+        a receive on a closed queue answers D *)
 From Coq Require Import List NArith ZArith Bool Arith String.
 From Snow Require Import Lib.Wire Model.GoHeap Model.ClientMap Model.QueueConn Model.Redial.
 Import ListNotations.
@@ -171,6 +177,50 @@ Definition qout_print (o : qout) : bytes :=
   | OCloseOk => bs "ok"
   end.
 
+
+(* ---- qm: answers and the whole client map after every operation *)
+Definition PLUS : N := 43.
+Definition HASH : N := 35.
+
+(* a queue's contents: all of it when short, otherwise the first two packets, the length, the last *)
+Definition q_print (q : list payload) : bytes :=
+  if Nat.leb (List.length q) 6 then or_e (join [PLUS] (map hexp q))
+  else match q with
+       | p1 :: p2 :: _ => hexp p1 ++ [PLUS] ++ hexp p2 ++ [PLUS] ++ [HASH] ++ nat_print (List.length q) ++ [PLUS] ++ hexp (last q [])
+       | _ => bs "?"
+       end.
+
+Definition live_print (c : cmap) : bytes :=
+  or_e (join [SEMI] (map (fun e => match nth_error (byAge c) (snd e) with
+                                   | Some r => rec_print r ++ [EQ] ++ q_print (c_q r)
+                                   | None => bs "?"
+                                   end) (byAddr c))).
+
+(* closed queues: identities only.  What is left in a discarded queue, and what a receive on it
+   yields (a left-over packet or "closed"), is not part of the property: both sides print D. *)
+Definition dead_print (c : cmap) : bytes :=
+  or_e (join [SEMI] (map nat_print (sort_nat (map fst (dead c))))).
+
+Definition qm_op_ok (o : qop) : bool :=
+  match o with QWrite _ _ _ | QOutRecv _ _ | QHeldRecv _ | QSweep _ => true | _ => false end.
+
+Definition qm_res_print (s : qconn) (o : qop) (r : qout) : bytes :=
+  match o with
+  | QHeldRecv k =>
+      match find_qid k (byAge (clients s)) with
+      | Some _ => qout_print r
+      | None => if Nat.ltb k (next_qid (clients s)) then bs "D" else qout_print r
+      end
+  | _ => qout_print r
+  end.
+
+Fixpoint qmrun (cap : nat) (timeout : Z) (ops : list qop) (s : qconn) : list bytes :=
+  match ops with
+  | [] => []
+  | o :: ops' =>
+      let '(s1, r) := qstep cap timeout s o in
+      (qm_res_print s o r ++ [SLASH] ++ live_print (clients s1) ++ [SLASH] ++ dead_print (clients s1)) :: qmrun cap timeout ops' s1
+  end.
 
 (* ---------------------------------------------------------------- redial *)
 (*  turbotunnel redial <ecap> <tokens>     (tokens: see harness/overlay/zz_verif/turbotunnel/redial.go)
@@ -348,6 +398,16 @@ Definition run (args : list bytes) : bytes :=
         match dec_parse_nat a, chunks_parse qop_parse rest with
         | Some cap, Some ops => list_print (map qout_print (snd (qrun cap 1%Z ops qc_empty)))
         | _, _ => ERR_BADCASE
+        end
+      else if beq op (bs "qm") then
+        match rest with
+        | b :: rest' =>
+            match dec_parse_nat a, zdec_parse b, chunks_parse qop_parse rest' with
+            | Some cap, Some timeout, Some ops =>
+                if forallb qm_op_ok ops then list_print (qmrun cap timeout ops qc_empty) else ERR_BADCASE
+            | _, _, _ => ERR_BADCASE
+            end
+        | [] => ERR_BADCASE
         end
       else
       match rest with
